@@ -3,6 +3,7 @@ import sys
 import functools
 from itertools import zip_longest
 import operator
+import types
 import typing as t
 from threading import RLock
 from typing_extensions import ParamSpec
@@ -87,6 +88,10 @@ def collect_typevars(args: t.Any) -> t.Tuple[t.Union[t.TypeVar, ParamSpec], ...]
     return tuple(d)
 
 
+UNION_ORIGINS: t.Tuple[t.Any, ...] = (t.Union, *((types.UnionType,) if hasattr(types, 'UnionType') else ()))
+"""Origins of union types: `typing.Union[X, Y]` and (python >=3.10) `X | Y`."""
+
+
 def type_union(types: t.Iterable[type]) -> type:
     return functools.reduce(operator.or_, types)
 
@@ -94,7 +99,7 @@ def type_union(types: t.Iterable[type]) -> type:
 def flatten_union_args(types: t.Iterable[T]) -> t.Iterator[T]:
     """Flatten nested unions, returning a single sequence of possible union types."""
     for ty in types:
-        if t.get_origin(ty) is t.Union:
+        if t.get_origin(ty) in UNION_ORIGINS:
             yield from flatten_union_args(t.get_args(ty))
         else:
             yield ty
@@ -118,7 +123,8 @@ def replace_typevars(ty: t.Any,
 
     args = (replace_typevars(ty, replacements) for ty in args)
 
-    if base is t.Union:
+    if base in UNION_ORIGINS:
+        base = t.Union  # `X | Y` can't be rebuilt by subscripting its origin
         args = tuple(flatten_union_args(args))
         # deduplicate union
         args = dict.fromkeys(args).keys()
